@@ -30,8 +30,11 @@ func GenerateIntegrations(intgenParams *cmdutils.CmdContextParamIntgen,
 	// The "project" app that specifies the required view of the integration
 	app := model.GetApps()[intgenParams.Project]
 	of := cmdutils.MakeFormatParser(intgenParams.Output)
-	// Iterate over each endpoint within the selected project
-	for epname, endpt := range app.GetEndpoints() {
+	// Iterate over each endpoint within the selected project, in name order: when the output name does not
+	// contain %(epname) all views share one entry of the result, and the one that is kept must not depend on
+	// the iteration order of the map.
+	for _, epname := range sortedSlice(app.GetEndpoints()) {
+		endpt := app.GetEndpoints()[epname]
 		outputDir := of.FmtOutput(intgenParams.Project, epname, endpt.GetLongName(), endpt.GetAttrs())
 		if intgenParams.Filter != "" {
 			re := regexp.MustCompile(intgenParams.Filter)
